@@ -64,13 +64,13 @@ def kind_of(f):
 
 
 # --------------------------------------------------------------------------- stack originates RTS/CTS
-def h_orig_cmdt(ex, prop, L, holds=(0,), interval=None, windows='sym', rewind=None):
+def h_orig_cmdt(ex, prop, L, holds=(0,), interval=None, windows='sym', rewind=None, other_interval=None):
     """holds: number of hold-CTS (CTS with 0 packets) the peer sends before its k-th grant
     rewind = [k, back]: before its k-th grant the reference responder discards the last `back` packets and re-requests
     them (CTS whose next-packet field goes back: retransmission request)"""
     c03, c09 = prop == 'C03', prop == 'C09'
     wa = ex.fresh_int('win_stack', 1, 255) if windows == 'sym' else windows
-    w, n, ca, rx = mk_world(ex, wa, rts_cts_interval=interval)
+    w, n, ca, rx = mk_world(ex, wa, rts_cts_interval=interval, bam_interval=other_interval)
     dp, pf, _, prio = pgn_inputs(ex)
     payload = sym_payload(ex, 'b', L)
     npk = tp21.npackets(L)
@@ -250,9 +250,9 @@ def h_resp_cmdt(ex, prop, L, windows='sym', gap=None, limit=None):
 
 
 # --------------------------------------------------------------------------- BAM
-def h_orig_bam(ex, prop, L, interval=None, pdu2=True, eps_sym=True):
+def h_orig_bam(ex, prop, L, interval=None, pdu2=True, eps_sym=True, other_interval=None):
     c03, c09 = prop == 'C03', prop == 'C09'
-    w, n, ca, rx = mk_world(ex, 1, bam_interval=interval, eps_sym=eps_sym)
+    w, n, ca, rx = mk_world(ex, 1, bam_interval=interval, eps_sym=eps_sym, rts_cts_interval=other_interval)
     dp, pf, ps, prio = pgn_inputs(ex, pdu2=pdu2)
     if not pdu2:
         ps = 255
